@@ -10,6 +10,11 @@ def _is_sender_of_file(prog, ty):
     return s.startswith("std::sync::mpsc::Sender<") and "std::fs::File" in s
 
 
+def _is_borrowed_channel(prog, ty):
+    s = prog.ty_str(prog.strip_refs(ty)).replace(" ", "")
+    return s.startswith("std::option::Option<&") and "std::sync::mpsc::Sender<" in s and "std::fs::File" in s
+
+
 def carrier_enums(ctx):
     """Crate-local enums that say the same as Option<Sender<File>>: exactly one variant holds the sender (and nothing
     else), every other variant has no fields. enum path -> index of the channel variant."""
@@ -81,6 +86,10 @@ def _switches_on_field(ctx, field):
             if not hit and enum is not None:
                 pty = ctx.world._place_ty(b, src)
                 hit = pty is not None and prog.adt_of(pty)[0] == enum
+            if not hit and enum is None:
+                # the channel handed on as `Option<&Sender<File>>` (the field's `as_ref()`), tested somewhere else
+                pty = ctx.world._place_ty(b, src)
+                hit = pty is not None and _is_borrowed_channel(prog, pty)
             if hit:
                 listed = dict((v, x) for v, x in t["targets"])
                 some_t = listed.get(chv)
@@ -185,6 +194,16 @@ def rule_mode_premise(ctx, rid="R0"):
                         "%s:%d" % (b.file, s.get("line", b.line)))
     if found == 0:
         r.bad("ctor", None, "no construction site of %s found" % field[1])
+    # a borrowed view of the channel (`Option<&Sender<File>>`) is only ever made from the field (`as_ref()`), never built
+    if c_enum is None:
+        for b0 in prog.bodies.values():
+            for bb in b0.normal_blocks():
+                for s in b0.stmts(bb):
+                    if s["k"] == "assign" and s["rv"]["k"] == "agg" and s["rv"].get("vn") == "Some" and not s["lhs"]["p"] \
+                            and _is_borrowed_channel(prog, b0.locals[s["lhs"]["l"]]):
+                        r.bad("borrowed-channel-built", b0,
+                              "a `Some(&sender)` is built at %s:%d: the mode dispatch no longer depends on the field alone" % (
+                                  b0.file, s.get("line", b0.line)))
     # every switch on the field has a Some edge to prune
     sws = _switches_on_field(ctx, field)
     r.check(len(sws) >= 1, "mode-dispatch", None, "%d switch(es) on the channel field" % len(sws),
